@@ -47,15 +47,24 @@ def gen_term_stmt(s):
     raise NotImplementedError(n)
 
 
-def gen_term_block(b):
+def gen_term_prefix(b, i):
+    """fold over the first i statements: gen accumulates, term is sticky (once TOP, always TOP)"""
     gen, term = set(), False
-    for s in b.stmts:
-        if term:
-            break                           # unreachable: DA stays TOP
+    for s in list(b.stmts)[:max(i, 0)]:
         g, t = gen_term_stmt(s)
         gen |= g
-        term = t
+        term = term or t
     return gen, term
+
+
+def gen_term_block(b):
+    return gen_term_prefix(b, len(b.stmts))
+
+
+def cc_prefix(b, i, entry):
+    for s in list(b.stmts)[:max(i, 0)]:
+        entry = cc_stmt(s, entry)
+    return entry
 
 
 def cc_stmt(s, entry):
@@ -84,4 +93,10 @@ GHOSTS = {
     'term_block': lambda b: gen_term_block(b)[1],
     'binds_tuple': lambda pat, k: k in names_of(pat),
     'cc_block': lambda b, entry: cc_block(b, bool(entry)),
+    'gen_stmt': lambda s, k: k in gen_term_stmt(s)[0],
+    'term_stmt': lambda s: gen_term_stmt(s)[1],
+    'gen_prefix': lambda b, i, k: k in gen_term_prefix(b, i)[0],
+    'term_prefix': lambda b, i: gen_term_prefix(b, i)[1],
+    'cc_stmt': lambda s, entry: cc_stmt(s, bool(entry)),
+    'cc_prefix': lambda b, i, entry: cc_prefix(b, i, bool(entry)),
 }
